@@ -24,6 +24,15 @@ const (
 
 var errManagerClosed = errors.New("sio: manager was closed while it was connecting")
 
+// allowConnection undoes the effect of `Close`. It is called when a connection is requested
+// (`Manager.Open`, `ClientSocket.Connect`), not when the attempt starts: the attempt is made on
+// another goroutine, and a `Close` that was called in the meantime must not be undone by it.
+func (m *Manager) allowConnection() {
+	m.skipReconnectMu.Lock()
+	m.skipReconnect = false
+	m.skipReconnectMu.Unlock()
+}
+
 func (m *Manager) connected() bool {
 	m.stateMu.RLock()
 	defer m.stateMu.RUnlock()
@@ -37,9 +46,13 @@ func (m *Manager) connect(recursed bool) (err error) {
 		m.connectMu.Lock()
 		defer m.connectMu.Unlock()
 
-		m.skipReconnectMu.Lock()
-		m.skipReconnect = false
-		m.skipReconnectMu.Unlock()
+		// `Close` might have been called since this attempt was requested (see `allowConnection`).
+		m.skipReconnectMu.RLock()
+		closed := m.skipReconnect
+		m.skipReconnectMu.RUnlock()
+		if closed {
+			return errManagerClosed
+		}
 	}
 
 	m.stateMu.Lock()
